@@ -202,14 +202,16 @@ def parse_pairs(body):
 class MapRun:
     """Builds the VM program for one case while running the dict model alongside."""
 
-    def __init__(self, case, probe_all=True):
+    def __init__(self, case, probe_all=True, slot=0, prog=None):
         self.case = case
         self.kind = case["kind"]
         self.kt, self.vt = case["kt"], case["vt"]
         self.uni = case["uni"]
         self.model = {}
-        self.P = Prog()
-        self.cur = 0
+        self.P = prog or Prog()
+        self.cur = slot
+        self.alt = slot + 1
+        self.aux = slot + 2
         self.state = {"dir": 0, "stats": [], "fwd": None}
         self.events = set()
         self.flags = {"collision": False, "rem_or_update": False, "two_children_rem": False, "fix_rem": False,
@@ -304,9 +306,10 @@ class MapRun:
         """returns (setup lines, argument, cleanup lines)"""
         if form == "heap":
             tn = self.kt
-            return ["new %%20 heap t:%s %s" % (tn, k)], "%20", ["del %20"]
+            a = self.aux + 1
+            return ["new %%%d heap t:%s %s" % (a, tn, k)], "%%%d" % a, ["del %%%d" % a]
         if form == "aliaskey" and present:
-            return ["findkey %s %s %%21" % (self.c, k)], "%21", []
+            return ["findkey %s %s %%%d" % (self.c, k, self.aux + 2)], "%%%d" % (self.aux + 2), []
         return [], k, []
 
     def apply(self, op):
@@ -350,8 +353,8 @@ class MapRun:
                 if not src:
                     form = "stack"
                 else:
-                    P.add("get %s %s %%22" % (self.c, src[0]), expect_ok(lit_repr(k)))
-                    a = "%22"
+                    P.add("get %s %s %%%d" % (self.c, src[0], self.aux + 3), expect_ok(lit_repr(k)))
+                    a = "%%%d" % (self.aux + 3)
                     self.events.add(o + "-aliasval")
             if form != "aliasval":
                 pre, a, post = self.key_arg(k, form, k in model)
@@ -384,26 +387,26 @@ class MapRun:
                 self.events.add("reserve")
                 self.check()
         elif o == "copy":
-            other = 1 - self.cur
+            other = self.alt
             P.add("copy %%%d %s" % (other, self.c), lambda ob: None if ob.startswith("ok") else "copy failed: " + ob)
             # mutate the original, then delete it: the copy must be unaffected (deep copy)
             fk, fv = filler_key(self.kt, 9999), filler_val(self.vt, 1)
             P.add("set %s %s %s" % (self.c, fk, fv))
             P.add("del %s" % self.c)
-            self.cur = other
+            self.cur, self.alt = self.alt, self.cur
             self.events.add("copy")
             self.flags["last_nslots"] = None
             self.check()
         elif o == "assign":
             sk, pairs = op[1], op[2]
-            P.add("new %%5 heap t:%s t:%s t:%s" % (sk, self.kt, self.vt))
+            P.add("new %%%d heap t:%s t:%s t:%s" % (self.aux, sk, self.kt, self.vt))
             src = {}
             for i, v in pairs:
-                P.add("set %%5 %s %s" % (self.uni[i], v))
+                P.add("set %%%d %s %s" % (self.aux, self.uni[i], v))
                 src[self.uni[i]] = v
-            P.add("assign %s %%5" % self.c, lambda ob: None if ob.startswith("ok") else "assign failed: " + ob)
-            P.add("set %%5 %s %s" % (filler_key(self.kt, 9998), filler_val(self.vt, 2)))
-            P.add("del %5")
+            P.add("assign %s %%%d" % (self.c, self.aux), lambda ob: None if ob.startswith("ok") else "assign failed: " + ob)
+            P.add("set %%%d %s %s" % (self.aux, filler_key(self.kt, 9998), filler_val(self.vt, 2)))
+            P.add("del %%%d" % self.aux)
             model.clear()
             model.update(src)
             self.events.add("assign-from-" + sk)
@@ -430,10 +433,10 @@ class MapRun:
         else:
             raise HarnessBug("op " + o)
 
-    def finish(self):
+    def finish(self, ledger=True):
         P = self.P
         P.add("del %s" % self.c)
-        if self.kt == "Probe" or self.vt == "Probe":
+        if ledger and (self.kt == "Probe" or self.vt == "Probe"):
             P.add("live", expect_ok("live=0 ledger=-"))
 
 
